@@ -353,6 +353,18 @@ def gen_c11(rnd, n, thorough=False):
 def gen_c18(rnd, n, thorough=False):
     cases = []
     for c in range(n):
+        if c == 7 or (thorough and c % 100 == 7):
+            # an archive with more than 2^16 slots, written on both sides of physical slot 65536
+            N = rnd.pick([70000, 66000, 67000])
+            offs = [0, 1, 2, N - 65537, N - 65536, N - 65535, N - 1, N - 2] + [rnd.randrange(N) for _ in range(6)]
+            offs = sorted(set(o for o in offs if 0 <= o < N))
+            lines = ["create s/a.wsp 1 1 %d m %d x 00000000" % (N, rnd.pick(METHODS)),
+                     "many s/a.wsp 0 @ %d %s" % (len(offs), " ".join("@-%d %016x" % (o, cvalue(rnd)) for o in offs)),
+                     "sync s/a.wsp", "drop s/a.wsp",
+                     "cliviewraw src=s:a.wsp from=0 until=0 archive=0 header=0 sort=%d" % rnd.pick([0, 1]),
+                     "cliview src=s:a.wsp from=0 until=0 archive=0 header=1"]
+            cases.append({'id': 'c18-%d' % c, 'lines': lines, 'tags': {'layout': 'big%d' % N}})
+            continue
         lname = rnd.pick(list(CLI_LAYOUTS))
         layout = CLI_LAYOUTS[lname]
         k = len(layout)
@@ -381,6 +393,19 @@ def gen_c20(rnd, n, thorough=False):
         fill = rnd.pick([1, 1, 1, 0])
         mx = rnd.pick([0, 1, 10, 1000])
         lines = []
+        if c % 3 == 1:
+            # the generator and the per-archive write at an explicit generation instant: aligned or
+            # not to each step, in the last finer slot of a coarser interval, before and after 2^31
+            layout = rnd.pick(lay + [[(1, 7), (7, 10)], [(2, 3), (6, 5)], [(1, 5), (5, 4), (20, 3)], [(1, 4), (4, 2), (8, 6)]])
+            top = layout[-1][0]
+            base = rnd.pick([1700000000, 1700000000, 2 ** 31 - 40, 2 ** 31 + 1000, 2 ** 31 + 10 ** 8, 3 * 10 ** 9])
+            now = base + rnd.pick([0, rnd.randrange(top), top - 1 - base % top, rnd.randrange(10 ** 5)])
+            lines.append("cligenat dest=g/x.wsp m=%d x=%08x layout=%s max=%d seed=%d now=%d" % (m, xff, lay_csv(layout), mx, rnd.randint(1, 10 ** 6), now))
+            lines.append("hdrof g/x.wsp")
+            for a, (S, N) in enumerate(layout):
+                lines.append("dfetch g/x.wsp %d %d %d %d" % (a, now - S * N, now, now))
+            cases.append({'id': 'c20-%d' % c, 'lines': lines, 'tags': {'levels': len(layout), 'fill': 1, 'max': mx, 'genat': 'post2038' if now >= 2 ** 31 else 'pre2038'}})
+            continue
         if rnd.chance(0.15):
             lines += ["create g/x.wsp 1 1 5 m 1 x 00000000", "sync g/x.wsp", "drop g/x.wsp", "snap g/x.wsp"]
         lines.append("cligenerate dest=g/x.wsp m=%d x=%08x layout=%s max=%d fill=%d" % (m, xff, lay_csv(layout), mx, fill))
@@ -404,12 +429,16 @@ def gen_c12(rnd, n, thorough=False):
         k = len(layout)
         m, xff = rnd.pick(METHODS), rnd.pick(XFF_VALID)
         names = rnd.sample(['a.wsp', 'cpu+io.wsp', 'rx&tx.wsp', 'p%41.wsp', 'q=1.wsp', 'sub/b.wsp', 'x~y.wsp', 'h#1.wsp'], 3)
+        if rnd.chance(0.4):
+            names = ['a.wsp', 'sub/b.wsp', names[0] if names[0] not in ('a.wsp', 'sub/b.wsp') else 'x~y.wsp']
         lines = []
         for nm in names:
             lines += fill_ops(rnd, 's/i1/' + nm, layout, m, xff, density=rnd.pick([0.3, 0.9]))
         lines += fill_ops(rnd, 's/i2/a.wsp', layout, m, xff, density=0.5)
         for _ in range(rnd.randint(3, 6)):
-            nm = rnd.pick(names + ['nope.wsp', 'cpu io.wsp'.replace(' ', '_')])
+            # besides files and missing files: a directory and a path through a regular file (they
+            # exist but cannot be opened: an error, not "does not exist", on both access paths)
+            nm = rnd.pick(names + ['nope.wsp', 'cpu io.wsp'.replace(' ', '_'), 'sub', 'a.wsp/x.wsp'])
             wk, frm, until = window(rnd, layout)
             arch = rnd.pick([-1, -1] + list(range(k)) + [k])
             if nm not in names:
@@ -424,7 +453,7 @@ def gen_c12(rnd, n, thorough=False):
                 elif kind == 'viewraw':
                     lines.append("cliviewraw src=s:i1/%s from=%s until=%s archive=%d header=1 sort=1%s" % (nm, frm, until, arch, r))
                 elif kind == 'sum':
-                    pat = rnd.pick(['*.wsp', 'a.wsp', 'zz*.wsp', '*+*.wsp'])
+                    pat = rnd.pick(['*.wsp', 'a.wsp', 'zz*.wsp', '*+*.wsp', '*', 's*'])
                     item = rnd.pick(['i*', 'i1', 'zz*'])
                     lines.append("clisum base=s item=%s src=%s from=%s until=%s archive=%d header=1%s" % (item, pat, frm, until, arch, r))
                     lines[-1] = lines[-1]   # the same patterns both ways
@@ -442,7 +471,7 @@ def gen_c12(rnd, n, thorough=False):
                         nm, remote, nm.replace('/', '_'), frm, until, arch, m, xff, lay_csv(layout), r))
                     observe_all(lines, dn, layout)
                 elif kind == 'globdiff':
-                    pat = rnd.pick(['i1/*.wsp', 'i*/a.wsp', 'zz/*.wsp', 'i1/*+*.wsp'])
+                    pat = rnd.pick(['i1/*.wsp', 'i*/a.wsp', 'zz/*.wsp', 'i1/*+*.wsp', 'i1/*', 'i1/s*'])
                     if remote == 0:
                         keep = "clidiff src=s:%s dest=s: from=%s until=%s archive=%d remote=0" % (pat, frm, until, arch)
                         lines.append(keep)
